@@ -11669,23 +11669,19 @@ let quantifier_body s =
                | _ -> None)
             | XH -> None))))
 
-(** val lT4 : n list **)
+(** val is_quantifier_start : n list -> bool **)
 
-let lT4 =
-  (Npos (XO (XO (XI (XI (XI XH)))))) :: ((Npos (XO (XO (XI (XI (XI
-    XH)))))) :: ((Npos (XO (XO (XI (XI (XI XH)))))) :: ((Npos (XO (XO (XI (XI
-    (XI XH)))))) :: [])))
+let is_quantifier_start = function
+| [] -> false
+| c :: r ->
+  (&&) (N.eqb c (Npos (XI (XI (XO (XI (XI (XI XH))))))))
+    (match quantifier_body r with
+     | Some _ -> true
+     | None -> false)
 
-(** val gT4 : n list **)
+(** val misused_rep : nat -> n list -> n list **)
 
-let gT4 =
-  (Npos (XO (XI (XI (XI (XI XH)))))) :: ((Npos (XO (XI (XI (XI (XI
-    XH)))))) :: ((Npos (XO (XI (XI (XI (XI XH)))))) :: ((Npos (XO (XI (XI (XI
-    (XI XH)))))) :: [])))
-
-(** val mark_quantifiers : nat -> n list -> n list **)
-
-let rec mark_quantifiers fuel s =
+let rec misused_rep fuel s =
   match fuel with
   | O -> s
   | S f ->
@@ -11696,72 +11692,31 @@ let rec mark_quantifiers fuel s =
        then (match quantifier_body r with
              | Some p ->
                let (inner, rest) = p in
-               app lT4 (app inner (app gT4 (mark_quantifiers f rest)))
-             | None -> c :: (mark_quantifiers f r))
-       else c :: (mark_quantifiers f r))
-
-(** val escape_curly : n list -> n list **)
-
-let rec escape_curly = function
-| [] -> []
-| c :: r ->
-  if N.eqb c (Npos (XO (XO (XI (XI (XI (XO XH)))))))
-  then (match r with
-        | [] -> (Npos (XO (XO (XI (XI (XI (XO XH))))))) :: []
-        | c2 :: r2 ->
-          (Npos (XO (XO (XI (XI (XI (XO XH))))))) :: (c2 :: (escape_curly r2)))
-  else if (||) (N.eqb c (Npos (XI (XI (XO (XI (XI (XI XH))))))))
-            (N.eqb c (Npos (XI (XO (XI (XI (XI (XI XH))))))))
-       then (Npos (XO (XO (XI (XI (XI (XO XH))))))) :: (c :: (escape_curly r))
-       else c :: (escape_curly r)
-
-(** val pstarts : n list -> n list -> bool **)
-
-let rec pstarts p l =
-  match p with
-  | [] -> true
-  | a :: p' ->
-    (match l with
-     | [] -> false
-     | b :: l' -> (&&) (N.eqb a b) (pstarts p' l'))
-
-(** val until_gt4 : n list -> n list -> (n list * n list) option **)
-
-let rec until_gt4 s acc_rev =
-  match s with
-  | [] -> None
-  | c :: r ->
-    if N.eqb c (Npos (XO (XI (XO XH))))
-    then None
-    else if pstarts gT4 r
-         then Some ((rev (c :: acc_rev)), (skipn (S (S (S (S O)))) r))
-         else until_gt4 r (c :: acc_rev)
-
-(** val restore_quantifiers : nat -> n list -> n list **)
-
-let rec restore_quantifiers fuel s =
-  match fuel with
-  | O -> s
-  | S f ->
-    (match s with
-     | [] -> []
-     | c :: r ->
-       if pstarts lT4 s
-       then (match until_gt4 (skipn (S (S (S (S O)))) s) [] with
-             | Some p ->
-               let (inner, rest) = p in
                app ((Npos (XI (XI (XO (XI (XI (XI XH))))))) :: [])
                  (app inner
                    (app ((Npos (XI (XO (XI (XI (XI (XI XH))))))) :: [])
-                     (restore_quantifiers f rest)))
-             | None -> c :: (restore_quantifiers f r))
-       else c :: (restore_quantifiers f r))
+                     (misused_rep f rest)))
+             | None ->
+               (Npos (XO (XO (XI (XI (XI (XO XH))))))) :: ((Npos (XI (XI (XO
+                 (XI (XI (XI XH))))))) :: (misused_rep f r)))
+       else if N.eqb c (Npos (XI (XO (XI (XI (XI (XI XH)))))))
+            then (Npos (XO (XO (XI (XI (XI (XO XH))))))) :: ((Npos (XI (XO
+                   (XI (XI (XI (XI XH))))))) :: (misused_rep f r))
+            else if N.eqb c (Npos (XO (XO (XI (XI (XI (XO XH)))))))
+                 then (match r with
+                       | [] -> (Npos (XO (XO (XI (XI (XI (XO XH))))))) :: []
+                       | c2 :: r2 ->
+                         if is_quantifier_start r
+                         then (Npos (XO (XO (XI (XI (XI (XO
+                                XH))))))) :: (misused_rep f r)
+                         else (Npos (XO (XO (XI (XI (XI (XO
+                                XH))))))) :: (c2 :: (misused_rep f r2)))
+                 else c :: (misused_rep f r))
 
 (** val misused_repetition : n list -> n list **)
 
 let misused_repetition s =
-  let a = mark_quantifiers (S (length s)) s in
-  let b = escape_curly a in restore_quantifiers (S (length b)) b
+  misused_rep (S (length s)) s
 
 (** val class_closes_later : n -> n list -> bool **)
 
